@@ -44,6 +44,9 @@ def classify_operand(a, state, ff, optypes, depth=0):
         if v is None or id(v) in seen:
             continue
         seen.add(id(v))
+        if isinstance(v, Ref) and v.name.startswith('self.results['):
+            verdicts.append('CURRENT')
+            continue
         if isinstance(v, Ref):
             # a slicer copy whose .plate was re-pointed to the current plate
             key = f"{v.name}.plate"
@@ -97,6 +100,8 @@ def classify_operand(a, state, ff, optypes, depth=0):
 
 
 def _reads_current(v):
+    if _is_results_ref(v):
+        return True         # the value stored into self.results[..] earlier in this step
     v0 = strip_refs(v)
     if isinstance(v0, Phi):
         return all(_reads_current(o) for o in v0.options)
